@@ -476,7 +476,8 @@ class World:
                       ("string", "name", "443"), ("string", "text", "abc"), ("uint32", "big", 70000), ("uint32", "u", 1),
                       ("uint16", "port", 22), ("boolean", "flag", True), ("boolean", "off", False), ("path", "p", "/x/y"),
                       ("datetime", "ts", pydt.datetime(2020, 1, 2, 3, 4, 5)), ("bytes", "raw", b"10.0.0.1"),
-                      ("uri", "link", "http://h/p")]
+                      ("uri", "link", "http://h/p"), ("net.tcp.Port", "tport", 443), ("net.udp.Port", "uport", 53),
+                      ("unix_file_mode", "mode", 0o644), ("wstring", "wtext", "w")]
         self.src_desc = RecordDescriptor("c05/source", [(t, n) for t, n, _ in src_fields])
         self.src = self.src_desc(_generated=T0, **{n: v for _, n, v in src_fields})
         self.foreign = []
@@ -487,7 +488,9 @@ class World:
                        ("string[]", "ips", ["1.2.3.4", "::1"]), ("uint32[]", "bigs", [70000]), ("uint16[]", "ports", [22, 65535]),
                        ("boolean[]", "flags", [True, False]), ("bytes[]", "raws", [b"ab"]), ("uri[]", "links", ["http://h/p"]),
                        ("float[]", "floats", [1.0]), ("stringlist", "sl", ["a", b"b\xff"]), ("stringlist", "sl_ints", [1, 70000]),
-                       ("dictlist", "dl", [{"a": 1}]), ("varint[]", "none", [])]
+                       ("dictlist", "dl", [{"a": 1}]), ("varint[]", "none", []),
+                       ("net.tcp.Port[]", "tports", [22, 80]), ("net.udp.Port[]", "uports", [53]), ("filesize[]", "fsizes", [1024]),
+                       ("net.IPAddress[]", "addrs", ["10.0.0.1"]), ("wstring[]", "wnames", ["w"])]
         self.src2_desc = RecordDescriptor("c05/listsource", [(t, n) for t, n, _ in list_fields])
         self.src2 = self.src2_desc(_generated=T0, **{n: v for _, n, v in list_fields})
         self.foreign_lists = []
@@ -523,9 +526,13 @@ class World:
         out = []
         if tn in ("record", "stringlist", "dictlist"):
             return out
+        from flow.record.base import fieldtype
+        with warnings.catch_warnings():
+            warnings.simplefilter("ignore")
+            target_cls = fieldtype(tn) if tn != "dynamic" else None
         for t, n, inst in self.foreign:
-            if self.enc.same_class(t, tn):
-                continue
+            if target_cls is None or isinstance(inst, target_cls):
+                continue                    # passes isinstance(v, <class of tn>): covered by the "instance" candidates
             probe = Cand("probe", self._plain(inst))
             self.classify(tn, probe)
             c = Cand("foreign_%s_%s" % (t.replace(".", "_"), n), inst, probe.expect, probe.classes)
@@ -809,9 +816,21 @@ def slot_problem(tn, o):
     from flow.record.fieldtypes.net import ip
     if o is None:
         return None
+    with warnings.catch_warnings():
+        warnings.simplefilter("ignore")
+        declared = fieldtype(tn)
     if tn.endswith("[]"):
         if not isinstance(o, list):
             return "list field holds %s" % type(o).__name__
+        # by class identity, not by name: the list class of T[] and its element class
+        if type(o) is not declared:
+            return "list object is a %s, not the list class of %s" % (_clsname(type(o)), tn)
+        with warnings.catch_warnings():
+            warnings.simplefilter("ignore")
+            elem_cls = fieldtype(tn[:-2])
+        if declared.__type__ is not elem_cls:
+            return "the list class of %s converts its elements to %s, the declared element class is %s" % (
+                tn, _clsname(declared.__type__), _clsname(elem_cls))
         for i, x in enumerate(o):
             if x is None:
                 return "element %d is None" % i
@@ -819,10 +838,10 @@ def slot_problem(tn, o):
             if p:
                 return "element %d: %s" % (i, p)
         return None
+    if tn not in ("record", "dynamic") and not isinstance(o, declared):
+        return "holds a %s, not a %s" % (_clsname(type(o)), _clsname(declared))
     if tn in UINTS:
-        with warnings.catch_warnings():
-            warnings.simplefilter("ignore")
-            cls = fieldtype(tn)
+        cls = declared
         if not isinstance(o, cls):
             return "holds %s" % type(o).__name__
         val = o.value
@@ -876,6 +895,10 @@ def slot_problem(tn, o):
             return None          # a str it is; whether it can be serialised is the serialisation clause
         return str(e)
     return None
+
+
+def _clsname(c):
+    return "%s.%s" % (getattr(c, "__module__", "?"), getattr(c, "__qualname__", getattr(c, "__name__", "?")))
 
 
 def record_problems(r, fields):
@@ -1189,7 +1212,7 @@ def serialise_check(r, fields, slot_cand, si):
 def single_cases(world, typenames, kws=(False, True)):
     out = []
     for tn in typenames:
-        forms = [tn] if tn in ALIASES else [tn, tn + "[]"]
+        forms = [tn, tn + "[]"]
         for form in forms:
             for c in world.table(form):
                 ref = (form, c.kind)
@@ -1202,13 +1225,138 @@ def single_cases(world, typenames, kws=(False, True)):
     return out
 
 
+def name_collisions(typenames):
+    """pairs of DIFFERENT whitelist names whose classes carry the same __name__ (case-insensitively): port / port,
+    ipaddress / IPAddress, ... -- the names a cache keyed by the class name would confuse"""
+    from flow.record.base import fieldtype
+    groups = {}
+    with warnings.catch_warnings():
+        warnings.simplefilter("ignore")
+        for tn in typenames:
+            groups.setdefault(fieldtype(tn).__name__.lower(), []).append(tn)
+    pairs = []
+    for names in groups.values():
+        for a in names:
+            for b in names:
+                if a != b:
+                    pairs.append((a, b))
+    return pairs
+
+
+def pair_cases(world, typenames):
+    """descriptors that use the list forms of two colliding names side by side, in both orders; each list is
+    constructed, assigned, replaced, assigned through a group, and given the OTHER field's list object"""
+    out = []
+    for a, b in name_collisions(typenames):
+        fa, fb = a + "[]", b + "[]"
+        ta, tb = world.table(fa), world.table(fb)
+        va = [c for c in ta if c.expect == "accept" and c.kind.startswith(("list1:", "tuple_valid"))][:2]
+        vb = [c for c in tb if c.expect == "accept" and c.kind.startswith(("list1:", "tuple_valid"))][:2]
+        xa = [c for c in ta if c.kind.startswith("listobj_") and c.expect == "accept"][:3]
+        xb = [c for c in tb if c.kind.startswith("listobj_") and c.expect == "accept"][:3]
+        if not va or not vb:
+            continue
+        for kw in (False, True):
+            ops = [("construct", {0: (fa, va[0].kind), 1: (fb, vb[0].kind)}), ("set", 1, (fb, vb[-1].kind)), ("set", 0, (fa, va[-1].kind)),
+                   ("replace", {0: (fa, va[0].kind), 1: (fb, vb[0].kind)}), ("gset", 1, (fb, vb[-1].kind))]
+            for c in xb:
+                ops.append(("set", 1, (fb, c.kind)))
+            for c in xa:
+                ops.append(("gset", 0, (fa, c.kind)))
+            out.append(Case([fa, fb], kw, ops, "pair"))
+    return out
+
+
+SCENARIO = r"""
+import json, sys, warnings, io
+warnings.simplefilter("ignore")
+order = sys.argv[1]
+from flow.record.whitelist import WHITELIST
+from flow.record.base import fieldtype
+from flow.record import RecordDescriptor, RecordPacker
+names = list(WHITELIST)
+if order == "reverse":
+    names.reverse()
+problems = []
+lists = {}
+for n in names:                       # resolve every list type first, in the given order
+    try:
+        lists[n] = fieldtype(n + "[]")
+    except Exception as e:
+        problems.append(dict(type=n, what="fieldtype(%r) raised %s" % (n + "[]", type(e).__name__)))
+table = {}
+for n in names:
+    ok = n in lists and lists[n].__type__ is fieldtype(n)
+    table[n] = bool(ok)
+    if n in lists and not ok:
+        problems.append(dict(type=n, what="fieldtype(%r).__type__ is %s.%s, declared element class %s.%s" % (
+            n + "[]", lists[n].__type__.__module__, lists[n].__type__.__name__, fieldtype(n).__module__, fieldtype(n).__name__)))
+# values through records: construct / assign / _replace / msgpack round trip
+VALUES = {"uint16": [22, 80], "uint32": [1], "net.tcp.Port": [22, 80], "net.udp.Port": [53], "string": ["a"], "wstring": ["w"],
+          "varint": [1], "filesize": [1024], "unix_file_mode": [420], "net.ipaddress": ["10.0.0.1"], "net.IPAddress": ["::1"],
+          "net.ipnetwork": ["10.0.0.0/8"], "net.IPNetwork": ["::/0"], "boolean": [True], "float": [1.5], "bytes": [b"x"],
+          "uri": ["http://h/p"], "path": ["/x"], "command": ["ls -l"], "digest": [("d41d8cd98f00b204e9800998ecf8427e", None, None)],
+          "datetime": ["2020-01-02T03:04:05+00:00"]}
+covered = [n for n in names if n in VALUES]
+desc = RecordDescriptor("c05/alltypes", [(n + "[]", "f%d" % i) for i, n in enumerate(covered)])
+packer = RecordPacker()
+def check(stage, rec):
+    for i, n in enumerate(covered):
+        v = getattr(rec, "f%d" % i)
+        cls = fieldtype(n)
+        if type(v) is not fieldtype(n + "[]"):
+            problems.append(dict(type=n, stage=stage, what="%s: %s[] field holds a %s" % (stage, n, type(v).__name__)))
+        for e in v or []:
+            if not isinstance(e, cls):
+                problems.append(dict(type=n, stage=stage, value=repr(VALUES[n]), what="%s: element %r of the %s[] field is a %s.%s, not a %s.%s" % (
+                    stage, e, n, type(e).__module__, type(e).__name__, cls.__module__, cls.__name__)))
+try:
+    r = desc.recordType(**{"f%d" % i: VALUES[n] for i, n in enumerate(covered)})
+    check("construct", r)
+    for i, n in enumerate(covered):
+        setattr(r, "f%d" % i, list(VALUES[n]))
+    check("assign", r)
+    check("_replace", r._replace(**{"f%d" % i: tuple(VALUES[n]) for i, n in enumerate(covered)}))
+    check("msgpack decode", packer.unpack(packer.pack(r)))
+except Exception as e:
+    problems.append(dict(type=None, what="scenario raised %s: %s" % (type(e).__name__, e)))
+print("@@" + json.dumps(dict(order=order, table=table, problems=problems)))
+"""
+
+
+def list_class_scenario(order):
+    """fresh interpreter that imports only flow.record: resolve every whitelisted list type in the given order, then
+    check by class identity that T[] converts to the class of T, through construct / assign / _replace / decode"""
+    import json
+    import sys
+    rc, out = core.sh([sys.executable, "-c", SCENARIO, order], env=core.env_for_repo(), timeout=120, cwd=str(core.VERIF))
+    for ln in out.splitlines():
+        if ln.startswith("@@"):
+            return json.loads(ln[2:])
+    return dict(order=order, table={}, problems=[dict(type=None, what="scenario process failed (rc=%s): %s" % (rc, out[-400:]))])
+
+
+def scenario_stage(ctx):
+    """returns True when a violation was reported"""
+    for order in ("forward", "reverse"):
+        res = list_class_scenario(order)
+        ctx.count_case(("list-class-scenario", order), nontrivial=True)
+        ctx.coverage["evaluations"] += max(0, len(res.get("table", {})) - 1)
+        if res["problems"]:
+            p0 = res["problems"][0]
+            ctx.violation("typed list classes, %s resolution order in a fresh process: %s" % (order, p0["what"]),
+                          dict(kind="listclass", order=order, problems=res["problems"][:10], table=res.get("table")))
+            return True
+    ctx.notes.append("list-class scenario in fresh interpreters (forward and reverse resolution order): %d whitelist entries" % len(res["table"]))
+    return False
+
+
 def random_cases(world, typenames, rnd, n):
     out = []
     forms = []
     for tn in typenames:
         forms.append(tn)
-        if tn not in ALIASES:
-            forms.append(tn + "[]")
+        forms.append(tn + "[]")
     for k in range(n):
         types = [rnd.choice(forms) for _ in range(rnd.randrange(1, 5))]
         kw = rnd.random() < 0.4
@@ -1370,13 +1518,15 @@ def search(ctx, reason):
     try:
         if range_sweep(ctx):
             return True
+        if scenario_stage(ctx):
+            return True
         world = World()
         names = all_typenames()
         # the repaired defects first (fixed: e636926, f4497f4, b7afec5), then everything else
         probes = [Case([tn], False, [("construct", {}), ("set", 0, (tn, kind))], "former-finding")
                   for tn, kind in (("boolean", "float_fraction_in_0_1"), ("uint16", "float_fraction"), ("uint32", "float_fraction"),
                                    ("digest", "str_hex"))]
-        cases = probes + single_cases(world, names) + random_cases(world, names, random.Random(ctx.seed), 150)
+        cases = probes + pair_cases(world, names) + single_cases(world, names) + random_cases(world, names, random.Random(ctx.seed), 150)
         for case in cases:
             term, problems, steps = execute(world, case)
             for p in problems:
@@ -1428,10 +1578,12 @@ def run(ctx):
     names = all_typenames()
     rnd = random.Random(ctx.seed)
     quick = ctx.tier == "quick"
-    cases = single_cases(world, names) + random_cases(world, names, rnd, 250 if quick else 12000)
+    cases = pair_cases(world, names) + single_cases(world, names) + random_cases(world, names, rnd, 250 if quick else 12000)
     reported, terms, metas = evaluate(ctx, world, cases, kf)
     if not reported:
-        range_sweep(ctx)
+        reported = range_sweep(ctx)
+    if not reported:
+        scenario_stage(ctx)
     ctx.coverage["exhaustive"] = False
     ctx.notes.append("%d operation sequences (%d from the candidate tables, %d random), %d types incl. list forms" % (
         len(cases), sum(1 for c in cases if c.label == "table"), sum(1 for c in cases if c.label == "random"),
@@ -1446,6 +1598,12 @@ def replay(obj):
         print("replay %s(%d): %s, consistent=%s (expected %s)" % (obj["type"], obj["value"], "accepted" if acc else "rejected",
                                                                    cons, "accepted" if obj["want"] else "rejected"))
         return 0 if (acc == obj["want"] and cons) else 1
+    if obj.get("kind") == "listclass":
+        res = list_class_scenario(obj["order"])
+        for p in res["problems"][:10]:
+            print("  PROBLEM:", p["what"])
+        print("replay list-class scenario (%s order): %d problems" % (obj["order"], len(res["problems"])))
+        return 1 if res["problems"] else 0
     if obj.get("kind") != "ops":
         print("replay of kind %s: re-run ./check C05" % obj.get("kind"))
         return 2
